@@ -25,7 +25,8 @@ EXPLANATION = (
     " ROUNDS 5-6: R9 decision table of resolved::Expression::value_type; R10 every extractvalue of generate_word_deref takes the value accumulated by the previous steps (backward slice). Tables are compared in canonical binding names (hirq.full_env), not source names."
     " ROUND 7: R11 the Element and Member arms after the automatic dereference of an immediate parameter both push the leading zero index (sibling agreement; /repo fix b78d5a6); class predicates are folded per variant whatever their form."
     " ROUND 8: R12-IMMEDIATE-FLAG-SCOPE: in the step loop of generate_storage_address the address local is only replaced with the immediate-parameter flag known false (path-sensitive scan; `data[0]` with `data: []&i32`); C09.R7 (string literal bytes) and C09.R10 (what may be spliced into the snprintf template) are shared, because what print!/format! write is part of the run-time behaviour."
-    " ROUND 9: R13-ARRAY-LITERAL-BASE: the aggregate that run-time elements of an array literal are inserted into originates from LLVMConstArray, never from undef; R3-CAST-ALWAYS-CONVERTED: every value generate_primitive_cast returns comes from generate_conversion, and the PrimitiveCast arm is exactly that call.")
+    " ROUND 9: R13-ARRAY-LITERAL-BASE: the aggregate that run-time elements of an array literal are inserted into originates from LLVMConstArray, never from undef; R3-CAST-ALWAYS-CONVERTED: every value generate_primitive_cast returns comes from generate_conversion, and the PrimitiveCast arm is exactly that call."
+    " ROUND 12: R14-D128-SIGN-TEST: the one signed comparison with zero in format_d128 (it decides whether the `-` of the 128-bit print template is skipped) is evaluated from its predicate constant and operand order at -1, 0 and 1; zero falls with 1.")
 
 GEN_EXPR = "<alpha::resolved::Expression as alpha::generator::Generatable>::generate"
 GEN_CMP = "<alpha::resolved::Comparison as alpha::generator::Generatable>::generate"
